@@ -652,3 +652,33 @@ mut("C09", "removal_ids_pooled_uncleared", "removal id lists are pooled without 
 }
 
 #[cfg(test)]"""))
+
+# ------------------------------------------------------------------ C04
+mut("C04", "events_before_replication", "server events are sent before replication of the tick", ["after-send_replication"],
+    ("src/server/event.rs", "                    .chain()\n                    .after(super::send_replication)\n                    .in_set(ServerSet::Send),", "                    .chain()\n                    .before(super::send_replication)\n                    .in_set(ServerSet::Send),"))
+mut("C04", "buffered_flushed_every_frame", "buffered events are flushed every frame, not only on ticks", ["send_buffered/only-on-tick"],
+    ("src/server/event.rs", "                    send_buffered\n                        .run_if(server_running)\n                        .run_if(resource_changed::<ServerTick>),", "                    send_buffered.run_if(server_running),"))
+mut("C04", "stamped_with_server_tick_default", "events are stamped with a default tick instead of the recipient's update tick", ["stamped-with-recipients-update-tick"],
+    (SE, "let message = self.message.get_bytes(client.update_tick())?;", "let _ = client;\n        let message = self.message.get_bytes(RepliconTick::default())?;"))
+mut("C04", "update_tick_always_bumped", "update tick is bumped even when no update message is sent", ["tick-bumped-iff-update-sent", "tick-set-before-update-sent"],
+    ("src/server.rs", """        if !updates.is_empty() {
+            ticks.set_update_tick(server_tick);
+            let server_tick""", """        ticks.set_update_tick(server_tick);
+        if !updates.is_empty() {
+            let server_tick"""))
+mut("C04", "cached_bytes_reused_for_any_tick", "re-stamping skipped: cached bytes reused for clients with another update tick", ["cached-bytes-only-for-same-tick"],
+    (SE, "                if *tick == update_tick {\n                    return Ok(bytes.clone());\n                }", "                if *tick == update_tick || *tick_size > 0 {\n                    return Ok(bytes.clone());\n                }"))
+mut("C04", "gate_inverted", "events at or behind the update tick are queued, ahead ones delivered", ["gate-orientation", "delivery-gated", "ahead"],
+    (SE, "                if tick > update_tick {\n                    debug!(\"queuing event", "                if tick <= update_tick {\n                    debug!(\"queuing event"))
+mut("C04", "ahead_event_also_delivered", "an event ahead of the update tick is queued and delivered at once", ["ahead-events-not-delivered", "delivery-gated"],
+    (SE, "                    queue.insert(tick, message);\n                    continue;", "                    queue.insert(tick, message.clone());"))
+mut("C04", "queue_released_one_tick_early", "queue releases events of update_tick + 1", ["queue-released-up-to-update-tick"],
+    (SE, "while let Some((tick, messages)) = queue.pop_if_le(update_tick) {", "while let Some((tick, messages)) = queue.pop_if_le(update_tick + 1) {"))
+mut("C04", "pop_if_le_ignores_tick", "pop_if_le releases the first entry whatever its tick", ["released-iff-key"],
+    ("src/shared/event/server_event/client_event_queue.rs", "        if *entry.key() > update_tick {\n            return None;\n        }\n", ""))
+mut("C04", "client_events_before_replication", "client receives events before applying replication", ["after-receive_replication"],
+    ("src/client/event.rs", "                            .after(super::receive_replication)\n", "                            .before(super::receive_replication)\n"))
+mut("C04", "unmapped_entities_accepted", "events with unmappable entities are delivered with placeholders", ["ok-only-when-all-mapped"],
+    (SE, "        if ctx.invalid_entities.is_empty() {\n            Ok(event)\n        } else {\n            let msg = format!(\n                \"unable to map entities `{:?}` from the server", "        if ctx.invalid_entities.is_empty() || ctx.invalid_entities.len() < 8 {\n            ctx.invalid_entities.clear();\n            Ok(event)\n        } else {\n            let msg = format!(\n                \"unable to map entities `{:?}` from the server"))
+mut("C04", "trigger_targets_not_mapped", "server trigger targets are used as server entities on the client", ["targets-mapped"],
+    ("src/shared/event/server_trigger.rs", "        targets.push(ctx.get_mapped(entity));", "        targets.push(entity);"))
